@@ -531,7 +531,8 @@ fn expand_one_env(sh: &Shell, token: &str) -> (String, String) {
 }
 
 fn need_expand_brace(line: &str) -> bool {
-    libs::re::re_contains(line, r#"\{[^ "']*,[^ "']*,?[^ "']*\}"#)
+    libs::re::re_contains(line, r#"\{[^ "']*,[^ "']*,?[^ "']*\}"#) &&
+    tools::nesting_depth(line, '{', '}') <= tools::MAX_NESTING
 }
 
 fn brace_getitem(s: &str, depth: i32) -> (Vec<String>, String) {
@@ -933,7 +934,8 @@ pub fn expand_env(sh: &Shell, tokens: &mut types::Tokens) {
 
 fn should_do_dollar_command_extension(line: &str) -> bool {
     libs::re::re_contains(line, r"\$\([^\)]+\)") &&
-    !libs::re::re_contains(line, r"='.*\$\([^\)]+\).*'$")
+    !libs::re::re_contains(line, r"='.*\$\([^\)]+\).*'$") &&
+    tools::nesting_depth(line, '(', ')') <= tools::MAX_NESTING
 }
 
 /// Split `text` at its first command substitution, `$(...)` or `` `...` ``:
